@@ -635,6 +635,7 @@ type Specs struct {
 	TypeInv      map[string][]Clause
 	Frames       map[string][]*SExpr
 	Persisted    []*Persisted
+	Distinct     []*Distinct
 	Flags        []*FlagDecl
 	StableNonNil map[string]bool // heap keys whose non-nil-ness, once established, is never undone
 	GlobalInv    []Clause        // invariants over shared state that hold at every instant (assumed at entry / after interference, proved at every return)
@@ -649,7 +650,14 @@ var itemKeywords = map[string]bool{
 	"func": true, "assume": true, "requires": true, "ensures": true, "assigns": true, "emits": true,
 	"loop": true, "on_panic": true, "spec": true, "ghost": true, "lemma": true, "axiom": true,
 	"on_store": true, "guarded_by": true, "lock_rank": true, "immutable": true, "attr": true,
-	"may_emit": true, "global_invariant": true, "stable": true, "frame": true, "uses": true, "params": true, "results": true, "lock_invariant": true, "type_invariant": true, "end": true, "persisted": true, "flags": true,
+	"may_emit": true, "global_invariant": true, "stable": true, "frame": true, "uses": true, "params": true, "results": true, "lock_invariant": true, "type_invariant": true, "end": true, "persisted": true, "flags": true, "distinct": true,
+}
+
+// Distinct declares that package-level variables initialised with constants
+// (context keys, cookie names, header names) have pairwise different values.
+type Distinct struct {
+	Tags  []string
+	Names []string // pkg.Name
 }
 
 // Persisted declares that the named fields of a struct type make the round
@@ -1123,6 +1131,25 @@ func (sp *Specs) parseItem(path string, it rawItem, cur **FuncContract) error {
 			fd.Bindings = append(fd.Bindings, b)
 		}
 		sp.Flags = append(sp.Flags, fd)
+	case "distinct":
+		// distinct[Cxx] pkg.name, pkg.name, ...
+		*cur = nil
+		d := &Distinct{}
+		if strings.HasPrefix(rest, "[") {
+			j := strings.Index(rest, "]")
+			for _, t := range strings.Split(rest[1:j], ",") {
+				if t = strings.TrimSpace(t); t != "" {
+					d.Tags = append(d.Tags, t)
+				}
+			}
+			rest = strings.TrimSpace(rest[j+1:])
+		}
+		for _, n := range strings.Split(rest, ",") {
+			if n = strings.TrimSpace(n); n != "" {
+				d.Names = append(d.Names, n)
+			}
+		}
+		sp.Distinct = append(sp.Distinct, d)
 	case "persisted":
 		// persisted[Cxx] <type>: Field, Field, ...   (a JSON shape obligation)
 		*cur = nil
